@@ -21,6 +21,12 @@ def engine(name):
 def main(path):
     with open(path) as f:
         doc = json.load(f)
+    md = doc.get('machinery_digest')
+    if md and md != D.machinery_digest():
+        print(f'note: this replay file was written by another version of the machinery ({md}, now {D.machinery_digest()}): '
+              'the generator tables may have changed, in which case the choices decode to a different run')
+    if doc.get('repo_head') and doc['repo_head'] != D.repo_head():
+        print(f"note: written against tree {doc.get('repo_path', '?')} at {doc['repo_head'][:12]}, replaying against {D.REPO} at {D.repo_head()[:12]}")
     if doc.get('pooled'):
         print(f"pooled statistical finding; re-run: {doc.get('replay_cmd')}")
         return 2
